@@ -1,6 +1,7 @@
 package main
 
 import (
+	"go/token"
 	"fmt"
 	"os"
 
@@ -57,4 +58,8 @@ func checkC03(c *Ctx) {
 	c.Decides("ORIENT-CUR: every flip of a branch (Edge.Inverse) in package tree is guarded by a condition reading the current left/right end of a branch (directly, through getters, through locals, or through a helper that reads them) and never only by remembered state")
 	c.Extra["flip_sites"] = c.orientCurrentRule("ORIENT-CUR")
 	c.Floor("ORIENT-CUR", 3)
+	c.Decides("NO-NEIGHBOUR-TAIL: no function of packages tree and support takes a positional tail (`[k:]`, k > 0) of a node's neighbour or branch list: the parent has no fixed place in them after an edit")
+	if c.noNeighbourTail("NO-NEIGHBOUR-TAIL", c.AllFuncs("tree", "support"), "all branches = internal + external ones") < 20 {
+		c.Undecided("NO-NEIGHBOUR-TAIL", "coverage", token.NoPos, "fewer than 20 loops over neighbour/branch lists seen in packages tree and support (about 60 were counted by hand)")
+	}
 }
